@@ -73,6 +73,35 @@ class MemFS:
     def writable(self, path):
         return path not in self.modes or bool(self.modes[path] & 0o200)
 
+    def os_open(self, path, flags, mode=0o777, *a, **k):
+        """os.open: the descriptor-level door to the same files"""
+        import os
+        path = self.canon(path)
+        acc = flags & (os.O_WRONLY | os.O_RDWR)
+        if flags & os.O_EXCL and flags & os.O_CREAT and path in self.files:
+            raise FileExistsError(17, "File exists", path)
+        if not acc:
+            f = self.open(path, "rb")
+        elif flags & os.O_APPEND:
+            if path not in self.files and not flags & os.O_CREAT:
+                raise FileNotFoundError(2, "No such file or directory", path)
+            f = self.open(path, "ab")
+        elif flags & os.O_TRUNC or path not in self.files:
+            if path not in self.files and not flags & os.O_CREAT:
+                raise FileNotFoundError(2, "No such file or directory", path)
+            created = path not in self.files
+            f = self.open(path, "wb")
+            if created:
+                self.modes[path] = mode & 0o777
+        else:
+            # opened for writing without truncation: what is written replaces the content from the
+            # start, the rest stays (the descriptor starts at offset 0)
+            f = self.open(path, "ab")
+            f.overwrite = True
+            f.keep = f.buf
+            f.buf = b""
+        return f.fileno()
+
     def open(self, path, mode="r", *a, **k):
         path = self.canon(path)
         if ("a" in mode or "w" in mode or "+" in mode) and path in self.files and not self.writable(path):
@@ -199,6 +228,8 @@ class MemFile:
         self.closed = True
         if getattr(self, "append", False) and not getattr(self, "dirty", False):
             return      # opened for appending, nothing appended: the file is as it was
+        if getattr(self, "overwrite", False):
+            self.buf = self.buf + self.keep[len(self.buf):]
         if self.mode == "w":
             r = self.fs.point("close-w", self.path)
             if r == "fail":
@@ -300,10 +331,67 @@ class FakeOs:
         if src not in self.fs.files:
             raise FileNotFoundError(src)
         self.fs.files[dst] = self.fs.files.pop(src)
+        self.fs.modes.pop(dst, None)
+        if src in self.fs.modes:
+            self.fs.modes[dst] = self.fs.modes.pop(src)
         self.fs.unlink_link(dst)          # the link itself is replaced by what was moved over it
         if src in self.fs.links:
             self.fs.links[dst] = self.fs.links.pop(src)
         self.fs.history.append((src, None))
+
+    def open(self, path, flags, mode=0o777, *a, **k):
+        return self.fs.os_open(path, flags, mode)
+
+    @staticmethod
+    def _file(fd):
+        return MemFile.by_fd.get(fd)
+
+    def fdopen(self, fd, *a, **k):
+        import os
+        f = self._file(fd)
+        if f is None:
+            return os.fdopen(fd, *a, **k)
+        m = a[0] if a else k.get("mode", "r")
+        f.text = "b" not in m
+        return f
+
+    def write(self, fd, data):
+        import os
+        f = self._file(fd)
+        return f.write(data) if f is not None else os.write(fd, data)
+
+    def read(self, fd, n):
+        import os
+        f = self._file(fd)
+        if f is None:
+            return os.read(fd, n)
+        was, f.text = f.text, False
+        try:
+            return f.read(n)
+        finally:
+            f.text = was
+
+    def close(self, fd):
+        import os
+        f = self._file(fd)
+        if f is None:
+            return os.close(fd)
+        MemFile.by_fd.pop(fd, None)
+        f.close()
+
+    def fsync(self, fd):
+        import os
+        f = self._file(fd)
+        if f is None:
+            return os.fsync(fd)
+        f.sync()
+
+    def fchmod(self, fd, mode):
+        import os
+        f = self._file(fd)
+        if f is None:
+            return os.fchmod(fd, mode)
+        self.fs.modes[f.path] = mode & 0o7777
 
     def readlink(self, path, **k):
         if path in self.fs.links and path in self.fs.files:
@@ -396,6 +484,16 @@ class GlobalRoute:
         for n in ("remove", "unlink"):
             patch(os, n, one(fos.remove))
         patch(os, "readlink", one(fos.readlink))
+
+        def os_open_(real):
+            def os_open(path, flags, mode=0o777, *a, **k):
+                r = route(path)
+                return fs.os_open(r, flags, mode) if r else real(path, flags, mode, *a, **k)
+            return os_open
+        patch(os, "open", os_open_)
+        for n in ("fdopen", "write", "read", "close", "fchmod"):
+            patch(os, n, lambda real, n=n: (lambda fd, *a, **k: getattr(fos, n)(fd, *a, **k)
+                                            if MemFile.by_fd.get(fd) is not None else real(fd, *a, **k)))
 
         def chmod_(real):
             def chmod(path, mode, *a, **k):
